@@ -519,3 +519,141 @@ Proof.
   unfold apply_masking_on, fill_property. rewrite E.
   destruct (a_fill A); reflexivity.
 Qed.
+
+(* ------------------------------------------------------------------ stored byte order *)
+Lemma of_le_to_le : forall k u, of_le (to_le k u) = u mod 256 ^ Z.of_nat k.
+Proof.
+  induction k as [|k IH]; intro u.
+  - simpl. now rewrite Z.mod_1_r.
+  - cbn [to_le of_le]. rewrite IH, Nat2Z.inj_succ, Z.pow_succ_r by lia.
+    rewrite (Z.rem_mul_r u 256 (256 ^ Z.of_nat k)); [reflexivity|lia|].
+    apply Z.pow_pos_nonneg; lia.
+Qed.
+
+Lemma order_order : forall bo bs, order bo (order bo bs) = bs.
+Proof. intros [] bs; simpl; [reflexivity|apply rev_involutive]. Qed.
+
+Lemma bytes_width : forall d, 256 ^ Z.of_nat (nbytes d) = 2 ^ nbits d.
+Proof. intros []; vm_compute; reflexivity. Qed.
+
+Lemma half_width : forall d, 2 ^ nbits d = 2 * 2 ^ (nbits d - 1).
+Proof. intros []; vm_compute; reflexivity. Qed.
+
+Lemma signed_bounds : forall d, is_signed d = true ->
+  lo d = - 2 ^ (nbits d - 1) /\ hi d = 2 ^ (nbits d - 1) - 1 /\ is_float d = false.
+Proof. intros [] H; try discriminate H; vm_compute; repeat split; reflexivity. Qed.
+
+Lemma unsigned_bounds : forall d, is_signed d = false -> is_float d = false ->
+  lo d = 0 /\ hi d = 2 ^ nbits d - 1.
+Proof. intros [] H F; try discriminate H; try discriminate F; vm_compute; split; reflexivity. Qed.
+
+Lemma decode_bytes : forall bo d z,
+  of_le (order bo (order bo (to_le (nbytes d) (z mod 2 ^ nbits d)))) = z mod 2 ^ nbits d.
+Proof.
+  intros bo d z. rewrite order_order, of_le_to_le, bytes_width.
+  apply Z.mod_mod. pose proof (pow_nbits_pos d). lia.
+Qed.
+
+(* the library's array has the stored values, whatever the byte order *)
+Theorem load_store : forall bo d v, safe_val d v = true -> load bo d (store bo d v) = v.
+Proof.
+  intros bo d v S. unfold store. destruct (is_float d) eqn:F; [reflexivity|].
+  destruct v as [z|]; [|simpl in S; congruence].
+  cbn [load]. rewrite decode_bytes. f_equal.
+  simpl in S. unfold in_range in S. rewrite F in S.
+  apply andb_true_iff in S as [L H]. apply Z.leb_le in L, H.
+  pose proof (half_width d) as HW. pose proof (pow_nbits_pos d) as P.
+  destruct (is_signed d) eqn:Sg; cbn [andb].
+  - destruct (signed_bounds d Sg) as [El [Eh _]]. rewrite El in L. rewrite Eh in H.
+    destruct (z <? 0) eqn:Neg.
+    + apply Z.ltb_lt in Neg.
+      assert (E : z mod 2 ^ nbits d = z + 2 ^ nbits d)
+        by (symmetry; apply Z.mod_unique with (q := -1); lia).
+      rewrite E. destruct (2 ^ (nbits d - 1) <=? z + 2 ^ nbits d) eqn:C; [lia|].
+      apply Z.leb_gt in C. lia.
+    + apply Z.ltb_ge in Neg. rewrite Z.mod_small by lia.
+      destruct (2 ^ (nbits d - 1) <=? z) eqn:C; [apply Z.leb_le in C; lia|reflexivity].
+  - destruct (unsigned_bounds d Sg F) as [El Eh]. rewrite El in L. rewrite Eh in H.
+    apply Z.mod_small. lia.
+Qed.
+
+(* the _Unsigned view with the byte order of the data is the view on values *)
+Theorem view_store : forall bo d v, is_float d = false -> safe_val d v = true ->
+  view_cell bo (store bo d v) = uview d v.
+Proof.
+  intros bo d v F S. unfold store. rewrite F.
+  destruct v as [z|]; [|simpl in S; congruence].
+  cbn [view_cell uview]. now rewrite decode_bytes.
+Qed.
+
+Lemma read_model_tail : forall d A mask unpack raw,
+  read_model d A mask unpack raw
+  = read_tail d A mask unpack (do_view d A unpack) (map (vw d (do_view d A unpack)) raw).
+Proof. reflexivity. Qed.
+
+(* reading the stored cells gives what the model on values gives *)
+Theorem read_stored_values : forall bo d A mask unpack raw,
+  Forall (fun v => safe_val d v = true) raw ->
+  read_stored bo d A mask unpack (map (store bo d) raw) = read_model d A mask unpack raw.
+Proof.
+  intros bo d A mask unpack raw H. rewrite read_model_tail.
+  unfold read_stored, read_stored_with. f_equal. rewrite map_map.
+  apply map_ext_in. intros v Hv. rewrite Forall_forall in H. specialize (H v Hv).
+  unfold vw. destruct (do_view d A unpack) eqn:V.
+  - apply view_store; [|exact H]. unfold do_view in V.
+    apply andb_true_iff in V as [_ Sg]. destruct d; try discriminate Sg; reflexivity.
+  - now apply load_store.
+Qed.
+
+(* ... so what a read presents does not depend on the stored byte order *)
+Theorem byte_order_independent : forall bo1 bo2 d A mask unpack raw,
+  Forall (fun v => safe_val d v = true) raw ->
+  read_stored bo1 d A mask unpack (map (store bo1 d) raw)
+  = read_stored bo2 d A mask unpack (map (store bo2 d) raw).
+Proof. intros. now rewrite !read_stored_values. Qed.
+
+(* a view type that loses the byte order is right for little-endian data and for data
+   that are not viewed, and wrong otherwise *)
+Theorem native_view_little_endian : forall d A mask unpack cells,
+  read_stored_native_view LE d A mask unpack cells = read_stored LE d A mask unpack cells.
+Proof. reflexivity. Qed.
+
+Theorem native_view_refuted :
+  exists d A raw, Forall (fun v => safe_val d v = true) raw /\
+    read_stored_native_view BE d A true true (map (store BE d) raw) <> read_model d A true true raw.
+Proof.
+  exists I2, (mkAttrs None None None None (Some (ANum I2 [Fin 300])) None None (Some "true"%string)),
+         [Fin 1; Fin 258].
+  split; [repeat constructor|vm_compute; discriminate].
+Qed.
+
+(* ------------------------------------------------------------------ identity packing *)
+Lemma promote_float_l : forall a b, is_float a = true -> is_float (promote a b) = true.
+Proof. intros [] []; intro H; try discriminate H; reflexivity. Qed.
+
+Lemma promote_contains : forall a b z, in_range a z = true -> in_range (promote a b) z = true.
+Proof.
+  intros a b z H. destruct (is_float (promote a b)) eqn:F; [unfold in_range; now rewrite F|].
+  destruct a, b; try discriminate F; unfold in_range in *; cbn in *;
+    apply andb_true_iff in H as [H1 H2]; apply Z.leb_le in H1, H2;
+    apply andb_true_iff; split; apply Z.leb_le; lia.
+Qed.
+
+Lemma cast_promote : forall a b v, safe_val a v = true -> cast (promote a b) v = v.
+Proof.
+  intros a b v S. apply cast_safe. destruct v as [z|]; simpl in *.
+  - now apply promote_contains.
+  - now apply promote_float_l.
+Qed.
+
+(* only scale_factor = 1, or only add_offset = 0, of whatever type: the values are unchanged *)
+Theorem identity_packing_keeps_values : forall dd ts to x, safe_val dd x = true ->
+  unpack_elem dd (Some (ts, Fin 1)) None x = x /\
+  unpack_elem dd None (Some (to, Fin 0)) x = x.
+Proof. intros dd ts to x S. cbn. split; now apply cast_promote. Qed.
+
+(* with one packing attribute the presented type does not depend on its value *)
+Theorem unpack_dt_value_free : forall dd t v v',
+  unpack_dt dd (Some (t, v)) None = unpack_dt dd (Some (t, v')) None /\
+  unpack_dt dd None (Some (t, v)) = unpack_dt dd None (Some (t, v')).
+Proof. split; reflexivity. Qed.
